@@ -261,14 +261,19 @@ _TH = ('%s, Threading = %s; initial list [A, B] with shared handles; T=%d thread
        'every schedule with at most P=%d preemptions; scheduling points: %s')
 _SP_HOOKS = 'every mutex / atomic / condition-variable operation of the instrumented policy'
 _SP_AUTO = _SP_HOOKS + ' plus every plain load/store from eventpp code to a heap/global object another thread has touched (automatic points; engine verdict only, not natively replayable)'
+_NOREP3 = '(engine verdict only: the per-prototype lists inside the heterogeneous classes use std::mutex whatever the Threading policy says) '
 PROPS['C03'] = Prop(
     quick=[Run('cl_threads_s1_hooks_p2', 'cl_threads.cpp', {'TT': 2, 'SS': 1}, preempt=2, covers=4, optional_covers=(2,), mt=True, bounds=_TH % ('CallbackList', 'instrumented policy', 2, 1, 2, _SP_HOOKS)),
            Run('cl_threads_s2_hooks_p1', 'cl_threads.cpp', {'TT': 2, 'SS': 2, 'OPSET': 1}, preempt=1, covers=4, mt=True, bounds=_TH % ('CallbackList', 'instrumented policy', 2, 2, 1, _SP_HOOKS) + '; reduced operation alphabet (append, prepend, insert-before-B, remove B, ownsHandle B, invoke)'),
            Run('cl_threads_s1_auto_p2', 'cl_threads.cpp', {'TT': 2, 'SS': 1}, preempt=2, covers=4, optional_covers=(2,), mt=True, shared_points=True, native=(), bounds=_TH % ('CallbackList', 'instrumented policy', 2, 1, 2, _SP_AUTO)),
            Run('cl_threads_s1_empty_hooks_p2', 'cl_threads.cpp', {'TT': 2, 'SS': 1, 'INIT': 0}, preempt=2, covers=4, optional_covers=(0, 1, 2), mt=True, bounds=_TH % ('CallbackList', 'instrumented policy', 2, 1, 2, _SP_HOOKS) + '; list initially EMPTY (handles A, B are empty handles)'),
            Run('disp_threads_s1_empty_hooks_p2', 'cl_threads.cpp', {'TT': 2, 'SS': 1, 'DISP': 1, 'INIT': 0}, preempt=2, covers=4, optional_covers=(0, 1, 2), mt=True, bounds=_TH % ('EventDispatcher', 'instrumented policy', 2, 1, 2, _SP_HOOKS) + '; no listener registered yet for the event (the per-event list is created by the racing calls)'),
-           Run('disp_threads_s1_hooks_p2', 'cl_threads.cpp', {'TT': 2, 'SS': 1, 'DISP': 1}, preempt=2, covers=4, optional_covers=(2,), mt=True, bounds=_TH % ('EventDispatcher', 'instrumented policy', 2, 1, 2, _SP_HOOKS))],
-    thorough=[Run('cl_threads_s2_hooks_p2', 'cl_threads.cpp', {'TT': 2, 'SS': 2}, preempt=2, covers=4, mt=True, budget_s=1700, bounds=_TH % ('CallbackList', 'instrumented policy', 2, 2, 2, _SP_HOOKS)),
+           Run('disp_threads_s1_hooks_p2', 'cl_threads.cpp', {'TT': 2, 'SS': 1, 'DISP': 1}, preempt=2, covers=4, optional_covers=(2,), mt=True, bounds=_TH % ('EventDispatcher', 'instrumented policy', 2, 1, 2, _SP_HOOKS)),
+           Run('hdisp_threads_grow_s1_auto_p2', 'cl_threads.cpp', {'TT': 2, 'SS': 1, 'DISP': 2, 'OPSET': 3, 'OTHERS': None, 'STDMAP': None}, preempt=2, covers=4, optional_covers=(0, 1, 2, 3), mt=True, shared_points=True, native=(), bounds=_NOREP3 + _TH % ('HeterEventDispatcher', 'instrumented policy; std::map; events 5, 6, 8 registered besides the main event 7, new events 9, 10 registered by the threads (the tree rotates under concurrent lookups)', 2, 1, 2, _SP_AUTO)),
+           Run('disp_threads_grow_s1_auto_p2', 'cl_threads.cpp', {'TT': 2, 'SS': 1, 'DISP': 1, 'OPSET': 3, 'OTHERS': None, 'STDMAP': None}, preempt=2, covers=4, optional_covers=(0, 1, 2, 3), mt=True, shared_points=True, native=(), bounds=_TH % ('EventDispatcher', 'instrumented policy; std::map; events 5, 6, 8 registered besides the main event 7, new events 9, 10 registered by the threads (the tree rotates under concurrent lookups)', 2, 1, 2, _SP_AUTO))],
+    thorough=[Run('hdisp_threads_grow_s2_auto_p1', 'cl_threads.cpp', {'TT': 2, 'SS': 2, 'DISP': 2, 'OPSET': 3, 'OTHERS': None, 'STDMAP': None}, preempt=1, covers=4, optional_covers=(0, 1, 2, 3), mt=True, shared_points=True, native=(), budget_s=1700, bounds=_NOREP3 + _TH % ('HeterEventDispatcher', 'instrumented policy; std::map; events 5, 6, 8 registered besides the main event 7, new events 9, 10 registered by the threads (the tree rotates under concurrent lookups)', 2, 2, 1, _SP_AUTO)),
+              Run('disp_threads_grow_hash_s2_auto_p1', 'cl_threads.cpp', {'TT': 2, 'SS': 2, 'DISP': 1, 'OPSET': 3, 'OTHERS': None}, preempt=1, covers=4, optional_covers=(0, 1, 2, 3), mt=True, shared_points=True, native=(), budget_s=1700, bounds=_TH % ('EventDispatcher', 'instrumented policy; default (hashed) map; other events registered besides the main one, new events registered by the threads', 2, 2, 1, _SP_AUTO)),
+              Run('cl_threads_s2_hooks_p2', 'cl_threads.cpp', {'TT': 2, 'SS': 2}, preempt=2, covers=4, mt=True, budget_s=1700, bounds=_TH % ('CallbackList', 'instrumented policy', 2, 2, 2, _SP_HOOKS)),
               Run('cl_threads_s2_auto_p1', 'cl_threads.cpp', {'TT': 2, 'SS': 2, 'OPSET': 1}, preempt=1, covers=4, mt=True, shared_points=True, native=(), budget_s=1700, bounds=_TH % ('CallbackList', 'instrumented policy', 2, 2, 1, _SP_AUTO) + '; reduced alphabet'),
               Run('cl_threads_s2_empty_hooks_p2', 'cl_threads.cpp', {'TT': 2, 'SS': 2, 'INIT': 0, 'OPSET': 1}, preempt=2, covers=4, optional_covers=(0, 1), mt=True, budget_s=1700, bounds=_TH % ('CallbackList', 'instrumented policy', 2, 2, 2, _SP_HOOKS) + '; list initially empty; reduced alphabet'),
               Run('cl_threads_t3_hooks_p2', 'cl_threads.cpp', {'TT': 3, 'SS': 1, 'OPSET': 2}, preempt=2, covers=4, optional_covers=(2,), mt=True, budget_s=1700, bounds=_TH % ('CallbackList', 'instrumented policy', 3, 1, 2, _SP_HOOKS) + '; alphabet append / insert-before-B / remove B / invoke'),
